@@ -33,7 +33,7 @@ def sched_catalogue(prop, tier, drv=0, precs_extra=True, light=False):
     j.append(sjob(prop, 'chain4', 3, 1 if q else 2, drv=drv))
     j.append(sjob(prop, 'uchain5', 2, b2, drv=drv, vk=1))
     # K2 two leaves + root, wide forks
-    j.append(sjob(prop, 'fork3', 2, b2, drv=drv)); j.append(sjob(prop, 'fork3', 3, b2, drv=drv))
+    j.append(sjob(prop, 'fork3', 2, b2, drv=drv)); j.append(sjob(prop, 'fork3', 3, 1 if q else 2, drv=drv))      # fork3 P=3 bound 2: > 10^5 executions, thorough only
     j.append(sjob(prop, 'sfork4', 2, b2, drv=drv)); j.append(sjob(prop, 'fork5', 3, 1 if q else 2, drv=drv))
     # K3 binary tree
     j.append(sjob(prop, 'tree7', 2, 1 if q else 2, drv=drv)); j.append(sjob(prop, 'utree7', 2, b2 if not q else 1, drv=drv, vk=1))
@@ -138,7 +138,7 @@ def jobs_C03(tier):
 
 def jobs_C04(tier):
     j = sched_catalogue('C04', tier, drv=0) + proto_jobs('C04', tier) + forest_conformance_jobs('C04', tier)
-    j += [sjob('C04', 'tree7', 2, 1, drv=1), sjob('C04', 'fork3', 3, 2, drv=2)]
+    j += [sjob('C04', 'tree7', 2, 1, drv=1), sjob('C04', 'fork3', 3, 1 if tier == 'quick' else 2, drv=2), sjob('C04', 'fork3', 2, 2, drv=2)]
     return j
 
 
